@@ -297,10 +297,10 @@ func Render(decls []Decl, lay Layout) *Result {
 			set(r.line(h + params(d.Params) + attribs(d.Tags, d.Attrs) + ":"))
 			r.open("ep")
 		case "event":
-			set(r.line("<-> " + d.Name + ":"))
+			set(r.line("<-> " + d.Name + attribs(d.Tags, d.Attrs) + ":"))
 			r.open("ep")
 		case "sub":
-			set(r.line(d.Src + " -> " + d.Name + ":"))
+			set(r.line(d.Src + " -> " + d.Name + attribs(d.Tags, d.Attrs) + ":"))
 			r.open("ep")
 		case "rest":
 			r.line(pathText(d.Parts) + ":")
